@@ -52,6 +52,9 @@ REGEX_SPECS = [
     ("esz_default", "message/Message.cpp", r"uint32 Message :: GetElementSize\(uint32 type\)\s*\{[^}]*?default:\s*return\s+([^;]+?)\s*;", "str"),
     ("single_bool_flat_size", "message/Message.cpp", r"uint32 MessageField :: SingleFlattenedSize\(\) const\s*\{[^}]*?if \(_typeCode == B_BOOL_TYPE\) return\s+([^;]+?)\s*;", "str"),
     # --- the other copies of the protocol constants (C08): C mini/micro codecs and gateways, Python codec
+    # --- C10: ObjectPool node indices (util/ObjectPool.h): INVALID_NODE_INDEX = ((uintNN)-1) must not be a valid index
+    ("pool_max_objects_per_slab", "util/ObjectPool.h", r"static_assert\(NUM_OBJECTS_PER_SLAB\s*<=\s*(\d+)", "int"),
+    ("pool_node_index_bits", "util/ObjectPool.h", r"enum\s*\{\s*INVALID_NODE_INDEX\s*=\s*\(\(uint(\d+)\)\s*-1\)\s*\}", "int"),
     ("mini_CURRENT_PROTOCOL_VERSION", "lang/c/minimessage/MiniMessage.c", r"#define\s+CURRENT_PROTOCOL_VERSION\s+(\d+)", "int"),
     ("mini_OLDEST_SUPPORTED_PROTOCOL_VERSION", "lang/c/minimessage/MiniMessage.c", r"#define\s+OLDEST_SUPPORTED_PROTOCOL_VERSION\s+(\d+)", "int"),
     ("micro_CURRENT_PROTOCOL_VERSION", "lang/c/micromessage/MicroMessage.c", r"#define\s+CURRENT_PROTOCOL_VERSION\s+(\d+)", "int"),
